@@ -8,6 +8,8 @@ open CwMt
 -- ---------------------------------------------------------------------------------------------
 -- overlay slice: the state is the stack; `push/commit/discard` change its depth
 
+def fmtList (xs : List (List UInt8)) : String := "[" ++ ",".intercalate (xs.map hex) ++ "]"
+
 def baseOf : Stack → Option Stack
   | .root _ => none
   | .layer b _ => some b
@@ -32,6 +34,14 @@ def stepOverlay (st : Stack) (toks : List String) : Stack × String :=
   | ["range", s, e, o] =>
     match unhexOpt s, unhexOpt e, parseOrder o with
     | some s, some e, some o => (st, fmtRecords (st.range s e o))
+    | _, _, _ => (st, "bad-op")
+  | ["keys", s, e, o] =>
+    match unhexOpt s, unhexOpt e, parseOrder o with
+    | some s, some e, some o => (st, fmtList ((st.range s e o).map (·.1)))
+    | _, _, _ => (st, "bad-op")
+  | ["values", s, e, o] =>
+    match unhexOpt s, unhexOpt e, parseOrder o with
+    | some s, some e, some o => (st, fmtList ((st.range s e o).map (·.2)))
     | _, _, _ => (st, "bad-op")
   | ["base-range", s, e, o] =>
     match baseOf st, unhexOpt s, unhexOpt e, parseOrder o with
@@ -91,6 +101,20 @@ def stepViews (m : Store Val) (toks : List String) : Store Val × String :=
       | .ok pfx => if rw == "rw" then (View.remove m pfx k, "ok") else (m, "panic")
       | _ => (m, "panic")
     | _, _ => (m, "bad-op")
+  | ["vkeys", p, _rw, s, e, o] =>
+    match parsePath p, unhexOpt s, unhexOpt e, parseOrder o with
+    | some p, some s, some e, some o =>
+      match pathPrefix p with
+      | .ok pfx => (m, fmtList ((View.range m pfx s e o).map (·.1)))
+      | _ => (m, "panic")
+    | _, _, _, _ => (m, "bad-op")
+  | ["vvalues", p, _rw, s, e, o] =>
+    match parsePath p, unhexOpt s, unhexOpt e, parseOrder o with
+    | some p, some s, some e, some o =>
+      match pathPrefix p with
+      | .ok pfx => (m, fmtList ((View.range m pfx s e o).map (·.2)))
+      | _ => (m, "panic")
+    | _, _, _, _ => (m, "bad-op")
   | ["vrange", p, _rw, s, e, o] =>
     match parsePath p, unhexOpt s, unhexOpt e, parseOrder o with
     | some p, some s, some e, some o =>
